@@ -47,9 +47,11 @@ func gen(t *rapid.T) Case {
 		s := Step{Hook: rapid.IntRange(0, 1).Draw(t, "hook")}
 		s.Exit = rapid.SampledFrom([]string{"0", "0", "0", "0", "0", "0", "0", "1", "2", "127", "signal"}).Draw(t, "exit")
 		s.Metrics = rapid.SampledFrom(append([]string{"trailing"}, fileStates...)).Draw(t, "metrics")
-		s.Patch = rapid.SampledFrom(append([]string{"trailing"}, fileStates...)).Draw(t, "patch")
-		s.Admission = rapid.SampledFrom(fileStates).Draw(t, "admission")
-		s.Conversion = rapid.SampledFrom(fileStates).Draw(t, "conversion")
+		s.Patch = rapid.SampledFrom(append([]string{"trailing", "unappliable"}, fileStates...)).Draw(t, "patch")
+		// the webhook response files are mostly left alone by a hook that runs for a schedule binding
+		quiet := []string{"untouched", "untouched", "untouched", "untouched", "untouched", "untouched", "untouched", "untouched", "valid", "valid", "truncated", "wrongtype", "deleted"}
+		s.Admission = rapid.SampledFrom(quiet).Draw(t, "admission")
+		s.Conversion = rapid.SampledFrom(quiet).Draw(t, "conversion")
 		s.Hold = rapid.IntRange(0, 2).Draw(t, "hold") == 0
 		c.Steps = append(c.Steps, s)
 	}
@@ -71,6 +73,9 @@ func fileFor(kind, state string, k int) *vh.File {
 	case "truncated":
 		v := valid[kind]
 		return &vh.File{Content: v[:len(v)/2]}
+	case "unappliable":
+		// well-formed, but the API refuses it: patch of an object that does not exist
+		return &vh.File{Content: `{"operation":"MergePatch","apiVersion":"v1","kind":"ConfigMap","namespace":"default","name":"c12-no-such-object","mergePatch":{"data":{"a":"b"}}}`}
 	case "trailing":
 		// a complete document followed by a stray closing bracket: not a stream of JSON documents
 		return &vh.File{Content: valid[kind] + []string{"}", "]", "\n}\n"}[k%3]}
@@ -112,7 +117,7 @@ func expect(s Step) string {
 	}
 	states := []string{s.Metrics, s.Patch, s.Admission, s.Conversion}
 	for _, st := range states {
-		if st == "truncated" || st == "wrongtype" || st == "trailing" {
+		if st == "truncated" || st == "wrongtype" || st == "trailing" || st == "unappliable" {
 			return "fail"
 		}
 	}
@@ -347,7 +352,7 @@ func runCase(c Case) (ev.Info, error) {
 	return info, nil
 }
 
-const rule = "the real operator (VerifAssemble + Start) on a fake cluster with two scripted hooks in different queues; 1-5 executions triggered by injected schedule ticks, each with a generated script: exit code {0,1,2,127,SIGKILL} x each of metrics/patch/admission/conversion file {untouched, valid, truncated, wrong JSON type, deleted; metrics and patch also: a valid document followed by a stray closing bracket}, optionally parked on a gate while the other hook runs; oracle from the hook's own log and the operator: cwd, six environment variables inside the temp dir, empty output files at start, unique file names across all executions, binding-context file == contexts of the task, outcome table (non-zero exit or malformed output -> failed and retried, nothing applied after a non-zero exit; exit 0 with valid outputs -> metric visible in the hook metric storage and patch applied to the cluster), temp directory empty after every execution. Non-trivial: an execution with a valid non-empty output file, or two overlapping executions."
+const rule = "the real operator (VerifAssemble + Start) on a fake cluster with two scripted hooks in different queues; 1-5 executions triggered by injected schedule ticks, each with a generated script: exit code {0,1,2,127,SIGKILL} x each of metrics/patch/admission/conversion file {untouched, valid, truncated, wrong JSON type, deleted; metrics and patch also: a valid document followed by a stray closing bracket; patch also: a well-formed operation the API refuses}, optionally parked on a gate while the other hook runs; oracle from the hook's own log and the operator: cwd, six environment variables inside the temp dir, empty output files at start, unique file names across all executions, binding-context file == contexts of the task, outcome table (non-zero exit or malformed output -> failed and retried, nothing applied after a non-zero exit; exit 0 with valid outputs -> metric visible in the hook metric storage and patch applied to the cluster), temp directory empty after every execution. Non-trivial: an execution with a valid non-empty output file, or two overlapping executions."
 
 func TestExec(t *testing.T) {
 	ev.Main(t, ev.Spec[Case]{Property: "C12", Part: "exec", Rule: rule, Gen: gen, Run: runCase, Journal: true})
